@@ -150,7 +150,13 @@ def run_case(case, drv, nmax=None):
             res.disagree(f"{form} sufficient penalty", suff_impl, md["suff"])
         if F(o.get_sufficient_penalty(True)) != 0:
             res.fail(f"{form}:suff-feas", "sufficient penalty in feasibility mode is not 0")
-    stq, mq = FU.model_qubo(drv, o, form, case["feas"], rho)
+    if n > 120:
+        # (the model's dense n x n QUBO takes the driver minutes for hundreds of variables; the data (A, b, R, c, Q_obj), the variable
+        # list and the sufficient penalty were compared above, the identity is checked on the real QUBO below)
+        res.features.append("model-qubo-skipped:n>120")
+        stq, mq = "skipped", None
+    else:
+        stq, mq = FU.model_qubo(drv, o, form, case["feas"], rho)
     if q_err is not None:
         if n >= 1:
             res.fail(f"{form}:qubo-raises", f"get_qubo raised {q_err!r} on an instance with {n} variable(s)")
@@ -162,7 +168,7 @@ def run_case(case, drv, nmax=None):
             res.fail(f"{form}:dims-Q", f"Q has shape {shape} for n={n}")
         elif Q != mq["Q"] or k != mq["k"]:
             res.disagree(f"{form} QUBO (Q,k)", (Q, k), (mq["Q"], mq["k"]))
-    elif n >= 1:
+    elif n >= 1 and stq != "skipped":
         res.disagree(f"{form} get_qubo status", "ok", stq)
     if n == 0 or shape != (n, n) or impl["Ashape"] != (m, n):
         res.nontrivial = False
